@@ -25,8 +25,8 @@ LEVEL = "model_checking"
 RULE = ("BFS over operation sequences on one real Aspire instance + one real HDF5 file; alphabet: fit(A), fit(B), "
         "fit(B, overwrite=True) [explicit checkpoint_path, or path taken from the active auto_checkpoint context], "
         "sample(importance|smc) [explicit path | context | none], enter auto_checkpoint(file), leave it, resume_from_file; "
-        "depth 3 (quick) / 4 (thorough) from the empty state, plus depth-2 continuations from every state reached by a "
-        "depth-2 prefix in thorough; abstract state = (config present + sampler_type, flow present, file-flow == memory-flow, "
+        "complete to depth 4 (quick) / 5 (thorough) from the empty state (split by the first two actions over the "
+        "worker pool); abstract state = (config present + sampler_type, flow present, file-flow == memory-flow, "
         "checkpoint present + its sampler, checkpoint-log q reproduced by file flow / by memory flow, stack of context "
         "defaults incl. saved_* flags, resume priming); invariant evaluated in every state with a checkpoint")
 ASSUMPTIONS = [
@@ -61,7 +61,8 @@ class World:
         orng.CONFIG["seed"] = 3
         self.mon = Monitor(p["like"], p["prior"], "numpy", keep_points=False)
         self.a = Aspire(log_likelihood=self.mon.log_likelihood, log_prior=self.mon.log_prior, dims=2, parameters=PARAMS,
-                        prior_bounds=None, bounded_to_unbounded=False, xp=get_xp("numpy"), flow_backend="zuko")
+                        prior_bounds=None, bounded_to_unbounded=False, xp=get_xp("numpy"), flow_backend="zuko",
+                        hidden_features=[8], transforms=1)
         self.stack = []  # context managers entered
         self.error = None
         self.fitted = False
@@ -238,7 +239,10 @@ def run_bfs(arg):
             r.states.add(explorer.digest(nk))
             r.transitions.add((explorer.digest(k), explorer.digest(a), explorer.digest(nk)))
 
-        res = B.bfs([tuple(prefix)], build, enabled, lambda w: w.key(), on_state, depth, bisim=True, on_transition=on_transition)
+        # a state in which the invariant is already violated is terminal: everything reachable from it inherits
+        # the same inconsistency and would only be reported again under other relation tuples
+        res = B.bfs([tuple(prefix)], build, enabled, lambda w: w.key(), on_state, depth, bisim=True, on_transition=on_transition,
+                    terminal=lambda w: w.error is not None or bool(invariant(w)[0]))
         if res["bisim_mismatches"]:
             if not r.violations:
                 raise B.BisimulationError(res["bisim_mismatches"][0])
@@ -272,7 +276,7 @@ def run(tier, seed, workers):
                 prefixes.append([a, b])
     finally:
         shutil.rmtree(tmp, ignore_errors=True)
-    depth = 1 if tier == "quick" else 2
+    depth = 2 if tier == "quick" else 3
     jobs = [([], 2)] + [(p, depth) for p in prefixes]
     for d in pmap("checks.c14", "run_bfs", jobs, workers):
         rep.merge(d)
